@@ -18,7 +18,6 @@ the geo-topological map whose three in-place assignments overwrite each other.
 """
 from __future__ import annotations
 
-import copy
 import json
 import math
 import warnings
